@@ -1735,8 +1735,11 @@ Theorem c16_fetch_intact_store_needed :
   let whole := file_bytes [84] [[1; 7]] in
   let cut := firstn (header_len [84]) whole in
   fetch_one_block toy_dec [(name, whole)] 5 [97] = FBlock (1, 7) /\
-  fetch_one_block toy_dec [(name, cut)] 5 [97] = FNil.
-Proof. vm_compute. split; reflexivity. Qed.
+  (* the code as shipped: (nil, nil); since fix 6b75a41: an error (outside C16_fetch's FErr clause, which
+     speaks of a message the decoder refuses: the hypothesis is still needed) *)
+  decode_one_block_file_unfixed toy_dec cut = FNil /\
+  fetch_one_block toy_dec [(name, cut)] 5 [97] = FErr.
+Proof. vm_compute. repeat split; reflexivity. Qed.
 Print Assumptions c16_fetch_intact_store_needed.
 
 (* (ii) name_ok inside stored_ok: possibly not necessary — a stored block whose truncated id has a
